@@ -283,6 +283,7 @@ def run(chk: Check, only_numeric: bool = False) -> None:
         run_pending_return_test(chk, ix)
         run_static_lengths_are_exact(chk, ix)
         run_inherited_class_attributes(chk, ix)
+        run_dict_helpers_dispatch_to_same_method(chk, ix, funcs)
         pass_order(chk, ix)
 
 
@@ -920,3 +921,45 @@ def run_inherited_class_attributes(chk: Check, ix) -> None:
                 r.ok(key, f.loc(c))
     if n < 1:
         raise AnalysisError("irbuild/match.py: no look-up of a special class attribute found")
+
+
+def run_dict_helpers_dispatch_to_same_method(chk: Check, ix, funcs) -> None:
+    """R05.19: a dict helper's slow path is the operation's own method, not a reconstruction from other operations."""
+    r = chk.rule("R05.19", "lib-rt's CPyDict_SetDefault* helpers implement `d.setdefault(k, v)`; for an exact dict they may use the C API directly, for a subclass (defaultdict, a dict that overrides setdefault or __missing__) only the object's own `setdefault` has the right meaning. Each of these helpers either has a PyDict_CheckExact test and reaches a call of the interned `setdefault` method (directly or through CPyDict_SetDefault) or delegates to one that does; a helper that rebuilds the operation from get-item + set-item runs __missing__ for a defaultdict", floor=3)
+    from ..cfront import function_bodies
+    names = sorted(n for n in funcs if n.startswith("CPyDict_SetDefault"))
+    if len(names) < 3:
+        raise AnalysisError(f"lib-rt: CPyDict_SetDefault* helpers found: {names}")
+    bodies = function_bodies(ix.root, "dict_ops.c", names)
+
+    def calls_in(node, out):
+        if node.get("kind") == "CallExpr" and node.get("inner"):
+            first = node["inner"][0]
+            while first.get("kind") in ("ImplicitCastExpr", "ParenExpr") and first.get("inner"):
+                first = first["inner"][0]
+            if first.get("ref"):
+                out.add(first["ref"])
+        if node.get("kind") == "MemberExpr" and node.get("name"):
+            out.add("member:" + node["name"])
+        for c in node.get("inner", []) or []:
+            calls_in(c, out)
+    info = {}
+    for nm in names:
+        b = bodies.get(nm)
+        if b is None:
+            raise AnalysisError(f"lib-rt: body of {nm} not found by clang")
+        s_: set = set()
+        calls_in(b, s_)
+        info[nm] = s_
+
+    def reaches_method(nm, seen=()):
+        s_ = info.get(nm, set())
+        if "member:setdefault" in s_ and any(x in s_ for x in ("PyObject_CallMethodObjArgs", "PyObject_CallMethodOneArg", "PyObject_CallMethod", "PyObject_VectorcallMethod")):
+            return True
+        return any(reaches_method(x, seen + (nm,)) for x in s_ if x in info and x not in seen and x != nm)
+    for nm in names:
+        key = f"{nm}: a dict subclass is served by its own setdefault()"
+        if reaches_method(nm):
+            r.ok(key, f"mypyc/lib-rt:{nm}")
+        else:
+            r.violation(key, f"mypyc/lib-rt:{nm}", f"{nm} never reaches a call of the object's `setdefault` method (it calls {sorted(x for x in info[nm] if not x.startswith('member:'))[:6]}): for a defaultdict the look-up runs __missing__, so `d.setdefault(k, [])` stores and returns the factory's value")
